@@ -32,7 +32,7 @@ type C10Scenario struct {
 
 func (C10) ID() string { return "C10" }
 func (C10) Rule() string {
-	return "(image) MaxFileBytes = L in {1,7,512}; 1-4 layers (empty history entries interleaved, broken histories included) whose archives hold regular files of size L-1, L, L+1, 2L (and a few unrelated sizes) over <=6 paths, rewritten across layers, seeded stream chunking; loaded with the real FromV1Image (simulated v1.Image) or FromTarball (real docker-save tarball); evaluation = one image load + observation of every chain-layer view (recursive walk and direct Stat/Open of every path) + snapshot of ExtractDir while the image is alive; non-trivial = the image holds at least one file of size >= L and one below. Container-scan configuration (1 in 3 scenarios): 2-5 layers rewriting 1-2 package-list files with 0-7 nine-byte lines each (deleted / re-created in between) so that the size of a path crosses MaxFileSize = L in {15, 30, 45} between layers; real Scanner.ScanContainer (main scan + trace.PopulateLayerDetails re-running filesystem.Run on older views) with a harness extractor that records Info.Size() and the bytes it could read for EVERY file it is handed; non-trivial = a path is within the limit in the final view and above it in an earlier view; distinct = distinct scenario JSON"
+	return "(image) MaxFileBytes = L in {1,7,512}; 1-4 layers (empty history entries interleaved, broken histories included) whose archives hold regular files of size L-1, L, L+1, 2L (and a few unrelated sizes) over <=6 paths, rewritten across layers and now and then twice within one archive, seeded stream chunking; loaded with the real FromV1Image (simulated v1.Image) or FromTarball (real docker-save tarball); evaluation = one image load + observation of every chain-layer view (recursive walk and direct Stat/Open of every path) + snapshot of ExtractDir while the image is alive; non-trivial = the image holds at least one file of size >= L and one below. Container-scan configuration (1 in 3 scenarios): 2-5 layers rewriting 1-2 package-list files with 0-7 nine-byte lines each (deleted / re-created in between) so that the size of a path crosses MaxFileSize = L in {15, 30, 45} between layers; real Scanner.ScanContainer (main scan + trace.PopulateLayerDetails re-running filesystem.Run on older views) with a harness extractor that records Info.Size() and the bytes it could read for EVERY file it is handed; non-trivial = a path is within the limit in the final view and above it in an earlier view; distinct = distinct scenario JSON"
 }
 
 var c10Paths = []string{"a", "b", "d/a", "d/b", "d/e/a", "x"}
@@ -87,7 +87,8 @@ func (C10) Gen(rt *rapid.T, tier string) any {
 		used := map[string]bool{}
 		for j := 0; j < ne; j++ {
 			p := rapid.SampledFrom(c10Paths).Draw(rt, "path")
-			if used[p] {
+			// the same path twice in one archive is legal (the later entry wins); 1 in 4
+			if used[p] && rapid.IntRange(0, 3).Draw(rt, "dup") != 3 {
 				continue
 			}
 			used[p] = true
